@@ -30,7 +30,7 @@ ASSUMPTIONS = [
 ]
 COMPONENTS = {"real": ["pyxel outputs (create_output_directory, save_to_files, save_to_file, apply_run_number)", "run_mode for the three modes and the file entry point pyxel.run (filename table, output_filenames.csv)", "dask get_async", "numpy.save / astropy fits.writeto / PIL on a real scratch filesystem"], "stub": ["wall clock (SimDateTime)", "thread pool", "OSError injection wrappers"]}
 BUDGET = {"quick": {"n": 400, "wall": 110, "determinism": 4}, "thorough": {"n": 15000, "wall": 1600, "determinism": 12}}
-REQUIRED_REACH = ["runs_with_identical_parameters", "seeded_observation", "bucket_in_several_entries", "via:file", "kind:exposure", "kind:obs-seq", "kind:obs-par", "same_second_starts", "clock_backwards", "prepopulated_dir", "concurrent_starts", "mkdir_lost_race", "fault:mkdir", "fault:write", "multi_key_mapping", "fmt:fits", "fmt:npy", "fmt:jpg"]
+REQUIRED_REACH = ["runs_with_identical_parameters", "seeded_observation", "bucket_in_several_entries", "via:file", "kind:exposure", "kind:obs-seq", "kind:obs-par", "same_second_starts", "clock_backwards", "prepopulated_dir", "concurrent_starts", "mkdir_lost_race", "fault:mkdir", "fault:write", "multi_key_mapping", "fmt:fits", "fmt:npy", "fmt:jpg", "resave_collision", "picture_format_before_lossless"]
 
 BUCKETS = ("photon", "pixel", "signal", "image")
 
@@ -43,6 +43,7 @@ def gen_save(rng):
             fm = rng.sample(["npy", "fits"], rng.randint(1, 2))
             if b == "image" and rng.random() < 0.3:
                 fm.append("jpg")
+                rng.shuffle(fm)  # a picture format may come before the lossless ones
             d[f"detector.{b}.array"] = fm
         save.append(d)
     # one (bucket, format) request may appear once only (two requests would map to one file name);
@@ -71,6 +72,9 @@ def gen_start(rng):
         rng.shuffle(op["temps"])
     if op["kind"] != "exposure" and rng.random() < 0.4:
         op["pipeline_seed"] = rng.randrange(1, 2**31)
+    if op["kind"] in ("exposure", "obs-seq") and op["via"] == "api" and rng.random() < 0.25:
+        # afterwards the same buckets are saved once more into the same folder under an already used run number
+        op["resave"] = rng.choice([0, 0, 1])
     return op
 
 
@@ -248,6 +252,32 @@ def check_run(scn, s, op, mode, tree, before, viol, stats, feat, seen_dirs):
         viol.append({"clause": "C19.bijection", "signature": f"C19.one-file-reported-twice@{feat}", "detail": sorted(reported_all)})
 
 
+def _resave(s, op, mode, viol, stats, feat):
+    """Colliding names inside the run folder: saving again under a used run number may fail, but never costs a file."""
+    import pyxel
+    from pyxel.exposure import Exposure
+    from pyxel.pipelines import Processor
+
+    folder = str(mode.outputs.current_output_folder)
+    s2 = {k2: v2 for k2, v2 in s.items() if k2 != "outputs"}
+    s2["mode"] = {"kind": "exposure"}
+    _m, det2, pipe2 = world.build_python(s2)
+    pyxel.run_mode(mode=Exposure(readout=world.build_readout(s["readout"])), detector=det2, pipeline=pipe2, with_inherited_coords=True)
+    before = listing(folder)
+    raised = None
+    try:
+        mode.outputs.save_to_file(processor=Processor(detector=det2, pipeline=pipe2), run_number=op["resave"])
+    except Exception as exc:  # noqa: BLE001
+        raised = exc
+    after = listing(folder)
+    stats["resave_collision" if raised is not None else "resave_no_collision"] = 1
+    for path, dig in before.items():
+        if path not in after:
+            viol.append({"clause": "C19.no-clobber", "signature": f"C19.existing-file-removed@{feat}+resave", "detail": {"file": os.path.basename(path), "second_save": repr(raised)[:160]}})
+        elif after[path] != dig:
+            viol.append({"clause": "C19.no-clobber", "signature": f"C19.existing-file-overwritten@{feat}+resave", "detail": {"file": os.path.basename(path), "second_save": repr(raised)[:160]}})
+
+
 def check_file_run(scn, s, op, scratch, out_dir, before, fs, viol, stats, feat, seen_dirs, k):
     """Start through the file entry point pyxel.run(<yaml>) and check the table of file names it returns."""
     import dask
@@ -355,6 +385,11 @@ def execute(scn, forced=None):
                     stats["bucket_in_several_entries"] = 1
                 for _, f in expected_requests(op):
                     stats["fmt:" + f] = 1
+                for d9 in op["save"]:
+                    for fm9 in d9.values():
+                        pics = [i9 for i9, f9 in enumerate(fm9) if f9 in ("jpg", "png")]
+                        if pics and pics[0] < len(fm9) - 1:
+                            stats["picture_format_before_lossless"] = 1
                 if op["op"] == "start":
                     kind = op["kind"]
                     stats["kind:" + kind] = 1
@@ -419,6 +454,8 @@ def execute(scn, forced=None):
                             viol.append({"clause": "C19.runs", "signature": f"C19.start-raises:{type(exc).__name__}@{feat}", "detail": {"exc": repr(exc)[:300], "tb": tb[-600:], "save": op["save"]}})
                     elif tree is not None:
                         check_run(scn, s, op, mode, tree, before, viol, stats, feat, seen_dirs)
+                        if op.get("resave") is not None and not viol:
+                            _resave(s, op, mode, viol, stats, feat)
                 else:  # concurrent exposure starters
                     stats["concurrent_starts"] = 1
                     nontrivial = True
